@@ -300,11 +300,12 @@ self . num_bits_set = 0 }
 
 
 
-    fn union ( & mut self , other : & BloomFilter ) requires old ( self ) . wf ( ) , other . wf ( ) , old ( self ) . same_config ( other ) ensures final ( self ) . wf ( ) ,
+    fn union ( & mut self , other : & BloomFilter ) requires old ( self ) . wf ( ) , other . wf ( ) ensures final ( self ) . wf ( ) ,
+/*@C09.union_compatible_validated*/ old ( self ) . same_config ( other ) ,
 /*@C18.bloom_size*/ final ( self ) . same_config ( old ( self ) ) ,
 /*@C09.union_bits*/ final ( self ) @ == old ( self ) @ . union ( other @ ) ,
 /*@C09.union_count*/ final ( self ) . num_bits_set == total_pc ( final ( self ) . bit_array @ ) , {
-assert! ( self . is_compatible ( other ) ) ;
+vx_documented_panic ( self . is_compatible ( other ) ) ;
 let mut num_bits_set = 0 ;
 let ghost ws0 = self . bit_array @ ;
 let ghost wo = other . bit_array @ ;
@@ -333,11 +334,12 @@ lemma_bits_or ( ws0 , wo , self . bit_array @ ) ;
 
 
 
-    fn intersect ( & mut self , other : & BloomFilter ) requires old ( self ) . wf ( ) , other . wf ( ) , old ( self ) . same_config ( other ) ensures final ( self ) . wf ( ) ,
+    fn intersect ( & mut self , other : & BloomFilter ) requires old ( self ) . wf ( ) , other . wf ( ) ensures final ( self ) . wf ( ) ,
+/*@C09.intersect_compatible_validated*/ old ( self ) . same_config ( other ) ,
 /*@C18.bloom_size*/ final ( self ) . same_config ( old ( self ) ) ,
 /*@C09.intersect_bits*/ final ( self ) @ == old ( self ) @ . intersect ( other @ ) ,
 /*@C09.intersect_count*/ final ( self ) . num_bits_set == total_pc ( final ( self ) . bit_array @ ) , {
-assert! ( self . is_compatible ( other ) ) ;
+vx_documented_panic ( self . is_compatible ( other ) ) ;
 let mut num_bits_set = 0 ;
 let ghost ws0 = self . bit_array @ ;
 let ghost wo = other . bit_array @ ;
@@ -590,6 +592,11 @@ fn suggest_num_hashes_from_accuracy(max_items: u64, num_bits: u64) -> (r: u16)
   ensures MIN_NUM_HASHES <= r <= MAX_NUM_HASHES
 { unimplemented!() }
 
+// R12b: a DOCUMENTED panic (argument / partner validation promised by the API docs) is modelled as 'returns only if the condition holds':
+// the condition becomes a tagged POSTCONDITION (`*_validated`) instead of a precondition, so weakening or removing the check is noticed.
+// The body is the original statement.
+#[verifier::external_body] fn vx_documented_panic(c: bool) ensures c { assert!(c); }
+
 impl BloomFilterBuilder {
     // the documented argument ranges of with_size; with_accuracy produces them through the clamps
     spec fn wf(&self) -> bool {
@@ -597,13 +604,14 @@ impl BloomFilterBuilder {
         &&& MIN_NUM_HASHES <= self.num_hashes <= MAX_NUM_HASHES
     }
 
-    fn with_accuracy ( max_items : u64 , fpp : f64 ) -> ( r : Self ) requires max_items > 0 , fpp_in_range ( fpp ) ensures
+    fn with_accuracy ( max_items : u64 , fpp : f64 ) -> ( r : Self ) ensures
+/*@C18.bloom_with_accuracy_validated*/ max_items > 0 && fpp_in_range ( fpp ) ,
 /*@C18.bloom_builder_ranges*/ r . wf ( ) , r . seed == DEFAULT_UPDATE_SEED {
-assert! ( max_items > 0 ) ;
+vx_documented_panic ( max_items > 0 ) ;
 proof {
 axiom_f64_cmp_deterministic ( ) ;
 }
-assert! ( fpp > 0.0 && fpp <= 1.0 ) ;
+vx_documented_panic ( fpp > 0.0 && fpp <= 1.0 ) ;
 let num_bits = suggest_num_bits ( max_items , fpp ) ;
 let num_hashes = suggest_num_hashes_from_accuracy ( max_items , num_bits ) ;
 BloomFilterBuilder {
@@ -611,10 +619,11 @@ num_bits , num_hashes , seed : DEFAULT_UPDATE_SEED , }
 }
 
 
-    fn with_size ( num_bits : u64 , num_hashes : u16 ) -> ( r : Self ) requires MIN_NUM_BITS <= num_bits <= MAX_NUM_BITS , MIN_NUM_HASHES <= num_hashes <= MAX_NUM_HASHES ensures
+    fn with_size ( num_bits : u64 , num_hashes : u16 ) -> ( r : Self ) ensures
+/*@C18.bloom_with_size_validated*/ MIN_NUM_BITS <= num_bits <= MAX_NUM_BITS && MIN_NUM_HASHES <= num_hashes <= MAX_NUM_HASHES ,
 /*@C18.bloom_builder_ranges*/ r . wf ( ) , r . num_bits == num_bits , r . num_hashes == num_hashes , r . seed == DEFAULT_UPDATE_SEED {
-assert! ( ( MIN_NUM_BITS ..= MAX_NUM_BITS ) . contains ( & num_bits ) ) ;
-assert! ( ( MIN_NUM_HASHES ..= MAX_NUM_HASHES ) . contains ( & num_hashes ) ) ;
+vx_documented_panic ( ( MIN_NUM_BITS ..= MAX_NUM_BITS ) . contains ( & num_bits ) ) ;
+vx_documented_panic ( ( MIN_NUM_HASHES ..= MAX_NUM_HASHES ) . contains ( & num_hashes ) ) ;
 BloomFilterBuilder {
 num_bits , num_hashes , seed : DEFAULT_UPDATE_SEED , }
 }
